@@ -589,7 +589,7 @@ func (hashsched) Exec(w *World, cc any, prop string) *Result {
 		res.event("hash n=%d steps=%d digest=%s err=%v out=%s", len(files), o.steps, class(o.digest), o.err != nil, outcomeStr(o.out))
 		res.event("trace %s", strings.Join(o.trace, " "))
 		if len(files) >= 2 {
-			res.distinctIf(prop == "C04", "trace:"+shortHash(strings.Join(o.trace, " ")))
+			res.distinctIf(prop == "C04", "trace:"+traceHash(o.trace))
 			if completionDiffers(o.trace, files) {
 				res.count("probe:completion_order_differs_from_list_order")
 			}
@@ -733,7 +733,7 @@ func (hashsched) Exec(w *World, cc any, prop string) *Result {
 		base = run(abs, c.Sched, c.Faults, -1)
 		judge18(base, "run("+faultSig()+")")
 		if staticBad+injected > 0 {
-			res.distinct(fmt.Sprintf("cell:L%d:%s:%s:%s", len(list), faultSig(), posOf(list, c.Faults), shortHash(strings.Join(base.trace, " "))))
+			res.distinct(fmt.Sprintf("cell:L%d:%s:%s:%s", len(list), faultSig(), posOf(list, c.Faults), traceHash(base.trace)))
 		}
 		if c.Big > 0 {
 			res.count("probe:big_list")
